@@ -687,6 +687,7 @@ const MODS: &[ModSpec] = &[
     ModSpec { ns: "Buffer", path: "miniz_oxide/src/deflate/buffer.rs", fns: &["update_hash"] },
     ModSpec { ns: "InflMod", path: "miniz_oxide/src/inflate/mod.rs", fns: &[] },
     ModSpec { ns: "InflCore", path: "miniz_oxide/src/inflate/core.rs", fns: &["num_extra_bits_for_distance_code", "validate_zlib_header", "end_of_input", "State::is_failure"] },
+    ModSpec { ns: "InflStream", path: "miniz_oxide/src/inflate/stream.rs", fns: &[] },
     ModSpec { ns: "OutBuf", path: "miniz_oxide/src/inflate/output_buffer.rs", fns: &[] },
     ModSpec { ns: "DeflMod", path: "miniz_oxide/src/deflate/mod.rs", fns: &["From<CompressionLevel> for u8::from"] },
     ModSpec { ns: "DeflCore", path: "miniz_oxide/src/deflate/core.rs", fns: &["TDEFLFlush::new", "From<MZFlush> for TDEFLFlush::from", "change_window_bits_from_format", "limit_level_by_window_bits", "probes_from_flags", "create_comp_flags_from_zip_params", "window_bits_from_flags", "ParamsOxide::max_match_dist"] },
@@ -944,7 +945,13 @@ fn main() {
     std::fs::create_dir_all(outdir).unwrap();
     std::fs::write(format!("{}/All.lean", outdir), &out).unwrap();
     std::fs::write(format!("{}/gen_manifest.json", outdir), &manifest).unwrap();
-    match facts::emit(repo, outdir) { Ok(()) => {}, Err(e) => errors.push(format!("facts: {}", e)) }
+    {
+        let mut len_term = |_file: &str, e: &Expr| -> Option<String> {
+            let mut tr = Tr::new(&g, "");
+            tr.ex(e, &Ty::U(64)).ok().map(|x| x.0)
+        };
+        match facts::emit(repo, outdir, &mut len_term) { Ok(()) => {}, Err(e) => errors.push(format!("facts: {}", e)) }
+    }
     if !errors.is_empty() {
         for e in &errors { println!("TRANSLATE-ERROR {}", e); }
         std::process::exit(1);
